@@ -137,9 +137,17 @@ def _models(ctx):
     ctx.tlc_mc("MC_PrefixCode", cfg="MC_PrefixCode_max.cfg", workers=4, note="huffman.rs as coded (two heaviest), counts <= 6")
 
 
+def _models_thorough(ctx):
+    ctx.tlc_mc("MC_FreqNorm", cfg="MC_FreqNorm5.cfg", workers=4, note="rans.rs normaliser, 2-5 symbols, counts <= 6, TOT=16")
+    ctx.tlc_mc("MC_PrefixCode", cfg="MC_PrefixCode5_min.cfg", workers=4, note="textbook rule, 2-5 symbols, counts <= 4")
+    ctx.tlc_mc("MC_PrefixCode", cfg="MC_PrefixCode5_max.cfg", workers=4, note="huffman.rs as coded, 2-5 symbols, counts <= 4")
+
+
 def run(ctx):
     ctx.build(BIN)
     _models(ctx)
+    if ctx.thorough:
+        _models_thorough(ctx)
     s1 = ctx.harness(BIN, "drive", "b1", timeout=3300 if ctx.thorough else 900, extra={"threads": min(ctx.jobs, 12)})
     files = sorted(glob.glob(os.path.join(s1["_out"], "*.ndjson")), key=lambda p: -os.path.getsize(p))
     if not files:
@@ -177,6 +185,7 @@ def run(ctx):
     cov["real_code_tables_judged"] = tot("code_tables")
     cov["payload_bytes"] = tot("payload_bytes")
     cov["skipped_payloads"] = tot("skipped_payloads")
+    cov["skipped_sessions"] = tot("skipped_sessions")
     cov["crashes"] = s1.get("crashes", [])
     # mechanism observation (never a verdict): real tables that leave slots unused - FreqNorm!SumIsTotal is what the
     # design promises (MC_FreqNorm: DoneSumIsTotal), losslessness only needs FreqNorm!SlotsFit
